@@ -25,6 +25,8 @@ var urlClasses = []urlClass{
 	{Re: `\d+`, Values: []string{"1", "22", "007", "1234567890"}},
 	{Re: `[a-z]+`, Values: []string{"a", "abc", "zz"}},
 	{Re: `\d{2}`, Values: []string{"12", "07", "99"}},
+	{Re: `(?:ab|cd)+`, Values: []string{"ab", "cdab", "cd"}},
+	{Re: `[[:alpha:]]+`, Values: []string{"abc", "Z", "xY"}},
 	{Re: `.+`, Values: []string{"a", "a/b", "x y/z?", "%2F/..", "{id}/{name}", "a//b"}, Last: true},
 }
 
@@ -174,6 +176,24 @@ func c15Case(t *T) {
 			latest[name] = o
 			log = append(log, fmt.Sprintf("%s.NamedTo(%q) again", o.ID, name))
 			t.Count("roundtrip.renamed", 1)
+		}
+	}
+	// an older route (no longer the most recent one of its name) is given a new, different name:
+	// it becomes the route of the new name, the old name keeps its most recent registration
+	if chance(r, 1, 3) {
+		var older []*namedRouteSpec
+		for _, s := range specs {
+			if s != latest[s.Name] {
+				older = append(older, s)
+			}
+		}
+		if len(older) > 0 {
+			o := pick(r, older)
+			newName := "moved-" + o.ID
+			o.route.NamedTo(newName, router)
+			log = append(log, fmt.Sprintf("%s.NamedTo(%q) (was registered as %q; %s is the most recent %q)", o.ID, newName, o.Name, latest[o.Name].ID, o.Name))
+			latest[newName] = o
+			t.Count("roundtrip.renamed_to_new_name", 1)
 		}
 	}
 	t.AutoSample()
